@@ -4,7 +4,7 @@ import sys, os, time, json
 sys.path.insert(0, os.path.dirname(os.path.abspath(__file__)))
 from common import *
 
-DEV_PROPS = {"C01", "C02", "C03", "C04", "C05", "C13", "C14"}
+DEV_PROPS = {"C01", "C02", "C03", "C04", "C05", "C06", "C07", "C08", "C13", "C14"}
 
 
 def main():
